@@ -163,8 +163,14 @@ def interior_of_full(full, nd):
 
 
 def cache_of(v):
-    """The cached boundary term, if the implementation keeps one."""
-    t = getattr(v, "_BCsTerm", None)
+    """The cached boundary term, if the implementation keeps one *as a plain
+    instance attribute*.  Read from the instance dictionary only: a snapshot must
+    never trigger a property (a refactoring may turn `_BCsTerm` into a lazily
+    filling accessor, whose evaluation changes state and may raise)."""
+    try:
+        t = vars(v).get("_BCsTerm")
+    except TypeError:
+        t = None
     if t is None:
         return None
     try:
